@@ -5,10 +5,10 @@ import (
 	"math"
 	"os"
 	"runtime"
-	"sync"
-	"sync/atomic"
 	"sort"
 	"strings"
+	"sync"
+	"sync/atomic"
 	"time"
 
 	prom "github.com/prometheus/client_golang/prometheus"
@@ -34,17 +34,17 @@ func runC17(c *mon.Ctx) {
 }
 
 type c17Series struct {
-	Kind    string            `json:"kind"` // counter gauge timer histogram
-	Name    string            `json:"name"`
-	Labels  map[string]string `json:"labels"`
-	Sum     float64           `json:"sum"`
-	Last    float64           `json:"last"`
-	Updated bool              `json:"updated"`
-	N       uint64            `json:"n"`
-	Bounds  []float64         `json:"bounds,omitempty"` // spec in exposition units (seconds for durations)
-	IsDur     bool  `json:"is_duration,omitempty"`
-	SampleIdx []int `json:"sample_bucket_index,omitempty"` // durations: index of the reference bucket of each sample
-	Samples []float64         `json:"samples,omitempty"`
+	Kind      string            `json:"kind"` // counter gauge timer histogram
+	Name      string            `json:"name"`
+	Labels    map[string]string `json:"labels"`
+	Sum       float64           `json:"sum"`
+	Last      float64           `json:"last"`
+	Updated   bool              `json:"updated"`
+	N         uint64            `json:"n"`
+	Bounds    []float64         `json:"bounds,omitempty"` // spec in exposition units (seconds for durations)
+	IsDur     bool              `json:"is_duration,omitempty"`
+	SampleIdx []int             `json:"sample_bucket_index,omitempty"` // durations: index of the reference bucket of each sample
+	Samples   []float64         `json:"samples,omitempty"`
 }
 
 func labelsOf(m *dto.Metric) map[string]string {
